@@ -174,10 +174,16 @@ Applicable(sc) ==
     \* bounds can only be put on floating parameters
     /\ (sc.bounds \in {"mass_two", "mixed"} => sc.floating \in {"mass", "mass_width"})
     /\ (sc.bounds = "width_lower" => sc.floating = "mass_width")
+    \* background / efficiency functions that depend (non-linearly) on a floating parameter of the same
+    \* parameter manager exist for the models that take bg_f / eff_f: Model_cfit, ModelCfitExtended
+    \* (then I_bg resp. the efficiency-weighted I_sig have non-zero first and second derivatives: the terms
+    \* g_int_bg, h_int_bg of CodeGradCfit / CodeHessCfit, zero for parameter-free columns, are exercised)
+    /\ (sc.shape # "columns" => sc.kind \in {"cfit", "cfit_ext"})
 Scenarios ==
     {sc \in [kind : ScnKinds, floating : {"couplings", "mass", "mass_width"},
              bounds : {"none", "coupling_two", "coupling_lower", "coupling_upper", "mass_two", "width_lower", "mixed"},
-             share : {"none", "tie"}, constr : {"none", "head", "two_heads", "tied"}, batch : {"single", "ragged"}] :
+             share : {"none", "tie"}, constr : {"none", "head", "two_heads", "tied"}, batch : {"single", "ragged"},
+             shape : {"columns", "bg_param", "eff_param", "bg_eff_param"}] :
         Applicable(sc)}
 
 
